@@ -438,3 +438,24 @@ func VerifH_C10_Sync() {
 	}
 	vrt.Reach("sync/ok")
 }
+
+// VerifH_C10_HeaderTags: the entity tag crosses GET and PUT answers as a
+// header: for every tag of one or two arbitrary bytes (the real strconv
+// quoting and unquoting code runs on them) GetAddressObject and PutAddressObject
+// hand back exactly the backend's tag.
+func VerifH_C10_HeaderTags() {
+	internal.VerifResetWire()
+	internal.VerifCopyHook = verifCopy
+	verifResetCodec()
+	tag := vrt.StrN("etag", 1+vrt.Choose("etag-len", vrt.Param("etaglen", 2)))
+	be := &verifBackend{principal: "/dav/u/", homeSet: "/dav/u/contacts/"}
+	obj := AddressObject{Path: "/dav/u/contacts/ab/o.x", ETag: tag, Card: verifValidCard()}
+	be.objects = []AddressObject{obj}
+	c, _ := newLoopClient(be)
+	got, err := c.GetAddressObject(context.Background(), obj.Path)
+	vrt.Assert(err == nil && got != nil && got.ETag == tag, "GetAddressObject hands back the backend's entity tag")
+	be.putResult = &AddressObject{Path: obj.Path, ETag: tag}
+	res, err := c.PutAddressObject(context.Background(), obj.Path, verifValidCard())
+	vrt.Assert(err == nil && res != nil && res.ETag == tag, "PutAddressObject hands back the backend's entity tag")
+	vrt.Reach("header-tags")
+}
